@@ -40,7 +40,8 @@ def plan(tier, seed):
     q = tier == 'quick'
     for i in range(10 if q else 14):
         specs.append({'kind': 'mut', 'shard': i, 'n': 5000 if q else 60000, 'cext': 'plain'})
-    specs.append({'kind': 'fixed', 'shard': 0, 'cext': 'plain'})
+    for i in range(4):
+        specs.append({'kind': 'fixed', 'shard': i, 'of': 4, 'cext': 'plain'})
     nex = 6 if q else 28
     for i in range(nex):
         specs.append({'kind': 'exh', 'shard': i, 'of': nex, 'maxlen': 4 if q else 5, 'cext': 'plain'})
@@ -53,6 +54,9 @@ def plan(tier, seed):
             specs.append({'kind': 'mut', 'shard': 300 + i, 'n': 500, 'cext': 'plain', 'conly': True, 'env': {'PYTHONMALLOC': 'malloc'},
                           'wrap': ['valgrind', '-q', '--error-exitcode=97', '--suppressions=/dev/null', '--trace-children=no'],
                           'timeout_s': 3 * 3600, 'valgrind': True})
+    for sp in specs:
+        if not sp.get('wrap'):
+            sp['case_limit_s'] = 75 if sp.get('cext') != 'asan' else 200        # a case takes milliseconds; the in-worker alarm is 60 s
     return specs
 
 
@@ -208,6 +212,19 @@ def fixed_inputs():
             for cut in range(w):
                 out.append(('"\\%s%s"' % (fmt, h[:cut]), 'escape_short'))
                 out.append(('"\\%s%sG"' % (fmt, h[:cut]), 'escape_nonhex'))
+    # pairs of \\u escapes (surrogate halves in every combination, JSON style)
+    for hi in ('D800', 'D83D', 'DBFF', 'DC00', 'DFFF', '0041'):
+        for lo in ('0041', 'DC00', 'DE00', 'DFFF', 'D800', 'FFFF', '0000'):
+            out.append(('"\\u%s\\u%s"' % (hi, lo), 'escape_pair'))
+            out.append(('k: "a\\u%s\\u%sb" # c' % (hi, lo), 'escape_pair'))
+    # long homogeneous runs: where a resolver / scanner regular expression could backtrack for ever
+    for n in (30, 45, 64, 200, 2000):
+        for unit in ('1', '0', '9', '1_', '_', '1:', ':1', '0x1', '0b1', 'e', '1e', '.1', '1.', '-', '+', '2001-', '0:0', 'a', ' ', '\t', '\n', '~', 'y', '.', '.inf', 't', 'T',
+                     ':', '-1', '00'):
+            for head, tail in (('', ''), ('- ', ''), ('k: ', ''), ('', 'x'), ('', ':'), ('', '.'), ('0', ''), ('2001-01-01 ', ''), ('1.', 'e'), ('0x', 'g')):
+                if n >= 200 and (head or tail) and unit not in ('1', '0', '_', ':1'):
+                    continue
+                out.append((head + unit * n + tail, 'long_run'))
     out.append(('"\\U00110000"', 'escape_num'))
     out.append(('"\\UFFFFFFFF"', 'escape_num'))
     out.append(("'\\U00110000'", 'escape_num'))
@@ -256,6 +273,20 @@ def fixed_inputs():
     return out + enc + odd
 
 
+def boundary_inputs():
+    """Documents padded so that a CR, CR LF, NEL, a multi-byte character or an escape sits at the end of a reader refill
+    (4096-unit reads; the first decode covers two of them).  Delivered as streams by the caller."""
+    out = []
+    tails = ['\r', '\r\n', '\n', chr(0x85), chr(0xe9), chr(0x1F600), '"\\', "'", ': ', '- ', '#', '\t', ' ', '\ufeff'.encode().decode() if False else chr(0xFEFF), '&a', '*a', '!t', '%', '---', '...']
+    for boundary in (4096, 8192, 12288, 16384):
+        for t in tails:
+            for off in (0, 1, 2):
+                pad = boundary - off - len(t)
+                for body in ('# ' + 'p' * (pad - 3) + '\n', 'k: "' + 'v' * (pad - 4), "k: '" + 'v' * (pad - 4), 'v' * pad, '- |\n  ' + 'l' * (pad - 6)):
+                    out.append(body[:pad] + t + '\nrest: 1\n')
+    return out
+
+
 def gen_mut(r):
     """One random hostile input; returns (data, class)."""
     files = corpus.files()
@@ -296,10 +327,27 @@ def run(spec, ctx):
                 ctx.sample({'class': cls, 'data': data if len(data) < 300 else data[:300]})
             rn.case(data, cls, streams=(i % 7 == 0))
     elif spec['kind'] == 'fixed':
+        of, sh = spec.get('of', 1), spec.get('shard', 0) % max(1, spec.get('of', 1))
         for i, (data, cls) in enumerate(fixed_inputs()):
+            if i % of != sh:
+                continue
             if i % 97 == 0:
                 ctx.sample({'class': cls, 'data': data if len(data) < 200 else data[:200]})
             rn.case(data, cls, streams=(i % 5 == 0))
+        for i, data in enumerate(boundary_inputs()):
+            if i % of != sh:
+                continue
+            ctx.crumb({'data': data})
+            for form in (data, data.encode('utf-8', 'surrogatepass')):
+                for bname, loader in rn.backends:
+                    for op in OPS:
+                        out, viol = rn.run_one(form, op, bname, loader, True)
+                        ctx.stat('runs')
+                        if viol:
+                            viol = dict(viol)
+                            viol.update({'op': op, 'backend': bname, 'via_stream': True, 'outcome': out})
+                            ctx.violation({'data': form, 'op': op, 'backend': bname, 'via_stream': True}, viol, classify(form, bname, viol))
+            ctx.case(core.h64(data), True, ['refill_boundary'])
         ctx.stat('fixed_families_complete')
     elif spec['kind'] == 'exh':
         k = 0
